@@ -31,16 +31,16 @@ REGISTRY = {
     'C05': dict(level='proof', bounded='checks.bounded.C05', extra_proved=['checks.static_proved.c05'],
                 trusted=['engine/pyframe/effects.py (syntactic effect obligations E1-E4)', 'numpy/scipy routines called by bct do not draw random numbers themselves',
                          'get_rng behaves as documented (decided by the bounded tier: None/np.random -> global, RandomState passed through, otherwise fresh RandomState(seed))'],
-                technique='static effect obligations (no global-random use, all draws through get_rng(seed)\'s generator, nested calls receive the generator, no other nondeterminism source) over every seed-accepting function; dynamic cross-check (bounded)'),    'C15': dict(extra_proved=['checks.lean_check.lean'], level='proof', bounded='checks.bounded.C15', pyvc=[('contracts.core_c15', k, None, None) for k in ['kcore_bu', 'kcore_bd', 'score_wu', 'kcoreness_centrality_bu', 'kcoreness_centrality_bd']],
-                trusted=PYVC_TRUSTED + ['counting lemmas lemma_masked_degree / lemma_degree_monotone (code-independent; engine/lean)', 'callee contracts of degrees_und / degrees_dir / strengths_und (column/row counts and sums)'],
+                technique='static effect obligations (no global-random use, all draws through get_rng(seed)\'s generator, nested calls receive the generator, no other nondeterminism source) over every seed-accepting function; dynamic cross-check (bounded)'),    'C15': dict(extra_proved=['checks.lean_check.lean', 'checks.lean_extract.lean_extracted'], level='proof', bounded='checks.bounded.C15', pyvc=[('contracts.core_c15', k, None, None) for k in ['kcore_bu', 'kcore_bd', 'score_wu', 'kcoreness_centrality_bu', 'kcoreness_centrality_bd']],
+                trusted=PYVC_TRUSTED + ['counting lemmas lemma_masked_degree / lemma_degree_monotone (code-independent; engine/lean)', 'engine/lean/extract.py (numpy->Lean extraction of the callees degrees_und / degrees_dir / strengths_und / binarize, whose SMT callee contracts are discharged as Lean theorems over the extracted source)'],
                 assumptions=['peel=True outputs are covered by the bounded stand-in only',
                              'kcoreness_centrality_bu/_bd are proved modularly against the results KC(CIJ,k), KN(CIJ,k) of kcore_bu/kcore_bd (their own contracts are proved separately; the link "KC is the k-core" is the kcore contract, the callee is abstract in the caller); coreness is the largest k < N whose core contains the node (degree >= N cases: see known finding)'],
-                technique='deductive (pyvc+z3): ghost alive-set invariant, maximality against an arbitrary (Skolem) node set meeting the bound; bounded subset-enumeration oracle for coreness and peel outputs'),    'C02': dict(extra_proved=['checks.lean_check.lean', 'checks.lean_extract.lean_extracted'], level='proof', bounded='checks.bounded.C02', pyvc=[('contracts.modularity', k, None, r'C07-') for k in ['modularity_finetune_und', 'modularity_finetune_dir']],
+                technique='deductive (pyvc+z3): ghost alive-set invariant, maximality against an arbitrary (Skolem) node set meeting the bound; bounded subset-enumeration oracle for coreness and peel outputs'),    'C02': dict(extra_proved=['checks.lean_check.lean', 'checks.lean_extract.lean_extracted'], level='proof', bounded='checks.bounded.C02', pyvc=[('contracts.modularity', k, None, r'C07-') for k in ['modularity_finetune_und', 'modularity_finetune_dir', 'modularity_louvain_und', 'modularity_louvain_und#level']],
                 trusted=PYVC_TRUSTED + ['modularity lemmas of engine/pyvc/core.py (gain lemma Qraw_move+nm_modularity, q_from_aggregate, relabelling invariance, node-to-module sum identities): code-independent, Lean'],
                 assumptions=['products/quotients of two symbolic reals are kept uninterpreted (umul/udiv) in the shape the code computes them; only sign facts of udiv are used',
-                             'all other detectors (Louvain family, signed variants, probtune, spectral modularity_und/_dir, community_louvain) are covered by the bounded stand-in only'],
-                technique='deductive (pyvc+z3+lemmas) for modularity_finetune_und/_dir: labels exactly 1..k and returned q = modularity of the returned labels; bounded stand-in for the other detectors'),
-    'C07': dict(extra_proved=['checks.lean_check.lean'], level='proof', bounded='checks.bounded.C07', pyvc=[('contracts.modularity', k, None, r'C02-') for k in ['modularity_finetune_und', 'modularity_finetune_dir']] +
+                             'modularity_louvain_und is proved for hierarchy=False; hierarchy=True output, modularity_louvain_dir (known finding), signed variants, probtune, spectral modularity_und/_dir, community_louvain are covered by the bounded stand-in only', 'lists of arrays of symbolic length are modelled by tracking only the provably addressed slots (engine/pyvc/core.py:SList); a fragment contract used modularly is assumed only through its ensures, its requires are obligations at the use site'],
+                technique='deductive (pyvc+z3+lemmas) for modularity_finetune_und/_dir and modularity_louvain_und (whole function, level fragment used modularly): labels exactly 1..k and returned q = modularity of the returned labels; bounded stand-in for the other detectors'),
+    'C07': dict(extra_proved=['checks.lean_check.lean'], level='proof', bounded='checks.bounded.C07', pyvc=[('contracts.modularity', k, None, r'C02-') for k in ['modularity_finetune_und', 'modularity_finetune_dir', 'modularity_louvain_und']] +
                      [('contracts.modularity', k, None, None) for k in ['modularity_louvain_und#level', 'community_louvain#level', 'modularity_louvain_dir#level', 'modularity_finetune_und_sign', 'modularity_louvain_und_sign#level']],
                 trusted=PYVC_TRUSTED + ['modularity lemmas of engine/pyvc/core.py (gain lemma, relabelling invariance, node-to-module sum identities): code-independent, Lean'],
                 assumptions=['products/quotients of two symbolic reals are kept uninterpreted (umul/udiv)',
@@ -74,6 +74,11 @@ REGISTRY['C18'] = dict(level='exploration', bounded='checks.bounded.C18', extra_
                        assumptions=['scipy.linalg.solve / expm / eig, np.argmax and the callee mean_first_passage_time are uninterpreted in the Lean theorems; their contracts appear as explicit hypotheses, stated only for the one call the code makes',
                                     'PageRank positivity and existence/uniqueness of the solution, graphs with a zero column sum, the defining equation of mean_first_passage_time itself, unit norm of the eigenvector and findwalks are bounded only'],
                        technique='numpy->Lean extraction + Lean proofs: the linear system handed to solve is I - d A D^-1 / (1-d) f, the result sums to one and (given the solve contract) satisfies the PageRank fixed point; diffusion_efficiency = elementwise inverse of mfpt off the diagonal and its mean; subgraph_centrality = diag(expm(CIJ)); eigenvector_centrality_und = |argmax-eigenvalue column|; residual checks on exhaustive small scopes (bounded) for the rest')
+REGISTRY['C19'] = dict(level='exploration', bounded='checks.bounded.C19', extra_proved=['checks.lean_extract.lean_extracted'],
+                       trusted=['engine/lean/extract.py', 'Lean kernel + Mathlib', 'oracles of checks/bounded/C19.py'],
+                       assumptions=['np.sqrt is an abstract real function in the Lean theorems (no property of it is used); np.ptp(v) == 0 is modelled as "all entries equal"',
+                                    'thresholding, component search, the permutation loop filling the null distribution and extent/intensity sizes of nbs_bct are covered by the bounded stand-in only'],
+                       technique='numpy->Lean extraction + Lean proofs for the t-statistic helpers of nbs_bct (defining formulas, invariance under swapping groups together with the tail, under tail=both, under reordering subjects / pairs) and the p-value statement (fraction of null values >= component size); brute-force oracle on small subject sets (bounded) for components and null distribution')
 for _pid in ['C08', 'C16', 'C18', 'C19', 'C20']:
     REGISTRY.setdefault(_pid, dict(level='exploration', bounded='checks.bounded.%s' % _pid, trusted=['oracles of checks/bounded/%s.py' % _pid],
                                    technique='bounded stand-in: the property\'s contract executed on the real functions over exhaustive small scopes'))
